@@ -8,7 +8,7 @@ from __future__ import annotations
 import itertools
 
 from sa.harness import H
-from sa.ae import Seq, DictV, Obj, Unknown, Tok
+from sa.ae import Seq, DictV, Obj, Unknown, Tok, ClassV
 from rules import common
 
 LEVEL = "proof"
@@ -106,7 +106,7 @@ def run(ctx):
                 tcls = "falsy-instance-class" if t0 == "F" else ("same-name-twin" if t0 in ("S1", "S2") else ("subclass" if t0 == "B" else ("parent-of-live-subclass" if t0 == "A" and "B" in live else "plain")))
                 cls = f"op={seq[0][0]},target-live={t0 in live if t0 else 'n/a'},target={tcls},others-live={len([c for c in live if c != t0]) > 0}"
                 res.violation("TABLE-STEP", qual, cls, f"live instances {list(live)}, operations {seq}: {why}", replay=replay(live, seq))
-    for name, fn_ in (("instance-dropped-by-the-caller", unreferenced), ("constructor-clears-all-singletons", reentrant_clear)):
+    for name, fn_ in (("instance-dropped-by-the-caller", unreferenced), ("constructor-clears-all-singletons", reentrant_clear), ("same-name-class-created-after-the-first-construction", late_twin)):
         try:
             why = fn_(h)
         except Unknown as u:
@@ -145,6 +145,34 @@ def _load(h):
     h.settle()
     h.gc_reset()
     return m.globals
+
+
+def late_twin(h):
+    """a class factory makes a class, the class is constructed, the factory makes another class (same name, module, qualified name) - also a
+    subclass named like its base - and the first class is constructed again: no clear happened, so it is the same object"""
+    g = _load(h)
+    log = g["LOG"]
+    twin = g["_twin"]
+    K1 = h.call(twin, "K1").value
+    o1 = h.call(K1, 1)
+    if o1.kind != "return" or not isinstance(o1.value, Obj):
+        return f"K1(1) gives {o1!r}"
+    K2 = h.call(twin, "K2").value          # created *after* K1 has its instance
+    before = len(log.items)
+    o1b = h.call(K1, 2)
+    if o1b.kind != "return" or o1b.value is not o1.value or len(log.items) != before:
+        return (f"a class factory makes class K1, K1(1) is constructed, the factory makes a second class of the same name, then K1(2) gives {o1b!r}"
+                f"{' and runs __init__ again' if len(log.items) != before else ''}: no clear happened in between, all constructions of K1 are one object")
+    o2 = h.call(K2, 1)
+    if o2.kind != "return" or o2.value is o1.value or not isinstance(o2.value, Obj) or o2.value.cls is not K2:
+        return f"the second class of that name has its own instance, but K2(1) gives {o2!r}"
+    K3 = h.I.call(g["TrueSingleton"], ["Service", Seq([K1], "tuple"), DictV([["__module__", K1.dict.get("__module__")]])], {})      # a subclass named like its base
+    if isinstance(K3, ClassV):
+        K3.dict["__qualname__"] = K1.dict.get("__qualname__", "Service")
+    o1c = h.call(K1, 3)
+    if o1c.kind != "return" or o1c.value is not o1.value:
+        return f"after a subclass named like its base class K1 was created, K1(3) gives {o1c!r} instead of K1's live instance"
+    return None
 
 
 def unreferenced(h):
